@@ -46,6 +46,9 @@ func ContractHash(contract []byte) [32]byte {
 	return sha3.Sum256(contract)
 }
 
+// ContractFails reports whether a sample contract fails when run without arguments.
+func ContractFails(contract []byte) bool { return len(contract) == 1 && contract[0] == 0x00 }
+
 // CP returns the checkpoint block that fixes the validators of the block *following* b:
 // the last block at an epoch boundary at or below b.
 func (b *Blk) CP(epoch uint64) *Blk {
@@ -185,6 +188,14 @@ func (n *Net) Apply(p *Blk, b *types.Block) (*Blk, error) {
 			u, ok := nb.Utxo[id]
 			if !ok {
 				return nil, &LedgerError{"missing-or-spent", fmt.Sprintf("tx %d spends %s", ti, HashShort(id))}
+			}
+			// an output locked by a contract call runs the contract registered on this branch by an
+			// EARLIER block (the table a block is validated against is the one before it); while the
+			// contract is not registered the call program itself runs (two pushes: anyone can spend)
+			if h, ok := IsCall(u.U.Program); ok {
+				if v, reg := p.Contracts[h]; reg && ContractFails(v[32:]) {
+					return nil, &LedgerError{"registered-contract-fails", fmt.Sprintf("tx %d calls %x", ti, h[:4])}
+				}
 			}
 			switch u.Type {
 			case UCoinbase:
